@@ -121,6 +121,7 @@ type vcConnRec struct {
 	// scenario data
 	Data       interface{}
 	acceptedAt int64
+	prepMark   uint64 // trace position when OnPrepare started
 	done chan struct{} // closed when the last (outermost-registered) close callback ran
 	once sync.Once
 }
@@ -262,7 +263,7 @@ func vcStartServer(o vcSrvOpts) (*vcSrv, error) {
 	s.Ln = ln
 	s.Addr = ln.Addr().String()
 	opts := []Option{WithOnPrepare(func(c Connection) context.Context {
-		rec := &vcConnRec{ID: vcConnID(c), Conn: c, done: make(chan struct{})}
+		rec := &vcConnRec{ID: vcConnID(c), Conn: c, done: make(chan struct{}), prepMark: vcTraceMark()}
 		if fc, ok := c.(Conn); ok {
 			rec.FD = fc.Fd()
 		}
@@ -347,9 +348,17 @@ func (s *vcSrv) Stop(d time.Duration) error {
 	return err
 }
 
+// nextAccepted returns the next accepted connection once its initialisation (OnPrepare AND the
+// registration with the poller that follows it) has completed: a connection handed out by
+// OnPrepare may not be used for I/O before that ("Reader() or Writer() cannot be used here").
 func (s *vcSrv) nextAccepted(d time.Duration) *vcConnRec {
 	select {
 	case r := <-s.Accepted:
+		if atomic.LoadInt32(&vcTraceOn) != 0 {
+			vcWaitPoint(r.prepMark, vpAcceptAfterInit, r.ID, 3*time.Second)
+		} else {
+			time.Sleep(2 * time.Millisecond)
+		}
 		return r
 	case <-time.After(d):
 		return nil
